@@ -416,6 +416,34 @@ pub fn run(ctx: &mut Ctx) {
         ctx.distinct(&format!("closed{}{:?}{}", s, kinds, shared));
         run::end_case();
     });
+    // the parent re-points one of its own standard streams between two spawns on the same thread (log rotation,
+    // daemonising): "inherited" and "merged onto inherited" must mean the stream as it is *now*
+    let nrep = ctx.n(120, 1200);
+    ctx.family("repointed-std", nrep, |ctx, rng, i| {
+        let s = 1 + (i % 2) as usize; // stdout or stderr
+        let other = 3 - s;
+        let mut kinds = [rng.below(4) as usize, 0, 0];
+        kinds[other] = if rng.chance(700) { 4 } else { 0 }; // the other output stream merged onto this one, or inherited too
+        run::begin_case();
+        let dir = ctx.scratch("c05r");
+        let o = one_spawn(ctx, kinds, false, &dir, "r1");
+        report_all(ctx, o);
+        // re-point fd s to a fresh file
+        let newf = std::fs::OpenOptions::new().create(true).read(true).write(true).open(dir.join("rotated.log")).unwrap();
+        let saved = unsafe { libc::syscall(libc::SYS_fcntl, s as i32, libc::F_DUPFD_CLOEXEC, 100) as i32 };
+        unsafe { libc::syscall(libc::SYS_dup3, newf.as_raw_fd(), s as i32, 0) };
+        drop(newf);
+        let o2 = one_spawn(ctx, kinds, false, &dir, "r2");
+        report_all(ctx, o2);
+        unsafe {
+            libc::syscall(libc::SYS_dup3, saved, s as i32, 0);
+            libc::syscall(libc::SYS_close, saved);
+        }
+        ctx.count("spawn_attempts", 2);
+        ctx.count("spawns_after_the_parent_repointed_a_stream", 1);
+        ctx.distinct(&format!("repoint{}{:?}", s, kinds));
+        run::end_case();
+    });
     // spawns from short-lived threads: the thread exits (TLS destructors run), then the parent's streams are re-checked
     let nthr = ctx.n(320, 6000);
     ctx.family("threads", nthr, |ctx, rng, i| {
